@@ -171,9 +171,24 @@ def run_check(tier, seed):
             'opendir 3 0', 'readdir 0 3 4096 0 100', 'destroy', 'lookup 4 0 d2', 'opendir 4 4', 'readdir 4 4 4096 0 100', 'releasedir 4 4', 'forget 4 1']})
     res = c08.run_cases(bindir, cases, 'c15')
     evals = 0; shapes = set(); samples = []; exprs = []; idx = []; pred_fail = {}
+    cut = 0
     for ci, (c, (rc, recs, out)) in enumerate(zip(cases, res)):
+        hung = [r for r in recs if 'hung' in r]; recs = [r for r in recs if 'hung' not in r]
+        if hung:
+            # verdict of the watchdog inside the harness: this request did not return
+            k = hung[0]['hung']
+            findings.append({'what': 'request %d (%s) did not return within %d s' % (k, c['lines'][k] if k < len(c['lines']) else '?', hung[0]['seconds']),
+                             'input': {'mode': c['mode'], 'no_open': c['no_open'], 'no_opendir': c['no_opendir'], 'lines': c['lines'][:k + 1]}, 'sig': {'check': 'hang'}})
+            continue
         if rc != 0 or len(recs) != len(c['lines']) + 1:
-            findings.append({'what': 'harness run did not complete (panic or crash in the server?)', 'input': c, 'log': out[-1500:], 'sig': {'check': 'crash'}})
+            if 'panicked' in out:
+                # the server (or an assertion of the harness) panicked: a concrete failing input
+                findings.append({'what': 'the run panicked after request %d: %s' % (len(recs) - 1, ' '.join(out[out.find('panicked'):].split())[:300]),
+                                 'input': {'mode': c['mode'], 'no_open': c['no_open'], 'no_opendir': c['no_opendir'], 'lines': c['lines'][:len(recs)]}, 'sig': {'check': 'crash'}})
+            elif not recs:
+                broken.append({'kind': 'harness-run', 'rc': rc, 'case': c, 'log': out[-800:]})
+            else:
+                cut += 1          # cut by our own timeout / killed: partial coverage, not a finding
             continue
         evals += len(recs) - 1
         for r in recs[1:]:
@@ -219,6 +234,7 @@ def run_check(tier, seed):
                            'property_predicate_failed_on_this_case': ci in pred_fail})
         ev.cov['model_vs_impl_histories'] = len(exprs)
     ev.cov['evaluations'] = evals
+    ev.cov['histories_cut_by_timeout'] = cut
     ev.cov['distinct_nontrivial'] = len(shapes)
     ev.cov['rule'] = ('random open/opendir/create/release/readdir/use/forget/destroy histories in 11 (inode_file_handles, use_host_ino, no_open, no_opendir) configurations; '
                       'evaluations = requests after which reply, 5 table sizes and the descriptor count were compared with the Coq model and the client-side predicate; '
